@@ -119,13 +119,21 @@ impl Router {
     handler: usize,
     exclusive: bool,
   ) -> bool {
-    let mut entry = self.connections.entry(username).or_default();
+    match self.connections.entry(username) {
+      MapEntry::Occupied(mut occupied) => {
+        // The name is held by a live connection, or by a departed user whose clean-up is still running
+        // (an empty entry): either way it is not available for an exclusive registration.
+        if exclusive {
+          return false;
+        }
 
-    if exclusive && !entry.is_empty() {
-      return false;
+        occupied.get_mut().push(Entry::new(handler, transmitter));
+      },
+      MapEntry::Vacant(vacant) => {
+        vacant.insert(vec![Entry::new(handler, transmitter)]);
+      },
     }
 
-    entry.push(Entry::new(handler, transmitter));
     true
   }
 
@@ -153,24 +161,33 @@ impl Router {
     F: FnOnce() -> Fut,
     Fut: std::future::Future<Output = Result<(), E>>,
   {
-    // Drop the connection and, if it was the last one, the whole entry in a single critical section:
-    // an IDENTIFY for the same name in between must either see the old holder or a free name whose
-    // clean-up is guaranteed to run.
-    let was_removed = match self.connections.entry(username.clone()) {
+    // Drop the connection in a single critical section. If it was the user's last one, the (now empty) entry
+    // stays until the clean-up is done: the user is still a member of its channels while the clean-up runs, so
+    // a new session must not be given the name yet — it would receive what is published to those channels.
+    let was_last = match self.connections.entry(username.clone()) {
       MapEntry::Occupied(mut occupied) => {
         occupied.get_mut().retain(|entry| entry.handler != handler);
-
-        if occupied.get().is_empty() {
-          occupied.remove();
-          true
-        } else {
-          false
-        }
+        occupied.get().is_empty()
       },
       MapEntry::Vacant(_) => false,
     };
 
-    if was_removed { cleanup().await } else { Ok(()) }
+    if !was_last {
+      return Ok(());
+    }
+
+    // Release the name when the clean-up has finished, whichever way it ends.
+    struct ReleaseName<'a>(&'a Router, &'a StringAtom);
+
+    impl Drop for ReleaseName<'_> {
+      fn drop(&mut self) {
+        self.0.connections.remove_if(self.1, |_, entries| entries.is_empty());
+      }
+    }
+
+    let _release = ReleaseName(self, username);
+
+    cleanup().await
   }
 
   /// Checks if there are any connections registered for a given username.
